@@ -607,42 +607,154 @@ theorem ck_foldE_cellReplace {m m' : Mesh} {a b : Id} {l : List Id}
     (h : foldE (fun m c => cellReplace m c a b) m l = .ok m') : ck m' = ck m :=
   foldE_inv (fun x => ck x = ck m) (fun _ _ _ hb hP => (ck_cellReplace hb).trans hP) h rfl
 
-theorem ck_triStep {bigs : List (List Id)} {inner : List (Id × Id)} {sv sv' : St × List (Id × Id)} {index : Nat}
-    (h : triStep bigs inner sv index = .ok sv') : ck sv'.1.mesh = ck sv.1.mesh := by
+theorem ck_foldE_delEdge {st st' : St} {l : List Id}
+    (h : foldE (fun st x => st.delEdge x) st l = .ok st') : ck st'.mesh = ck st.mesh :=
+  foldE_inv (fun x : St => ck x.mesh = ck st.mesh) (fun _ _ _ hb hP => (ck_St_delEdge hb).trans hP) h rfl
+
+theorem ck_triStep {bigs : List (List Id)} {sv sv' : St × List (Id × Id)} {k : Id × Id}
+    (h : triStep bigs sv k = .ok sv') : ck sv'.1.mesh = ck sv.1.mesh := by
   unfold triStep at h
   simp only at h
   split at h
   · cases h; rfl
   split at h
-  · cases h; rfl
-  split at h
+  · split at h
+    · cases h; rfl
+    split at h
+    · cases h; rfl
+    split at h
+    · cases h
+    split at h
+    · cases h
+    split at h
+    · cases h
+    rename_i hc _ st2 hl
+    cases h
+    simp only
+    rw [ck_foldE_delEdge hl]
+    simp only
+    split at hc
+    · cases hc; rfl
+    · cases hc
+    · exact ck_foldE_cellReplace hc
   · cases h
-  split at h
-  · cases h
-  split at h
-  · cases h
-  split at h
-  · cases h
-  rename_i hc _ st2 hl
-  cases h
-  simp only
-  rw [ck_liveDel hl]
-  simp only
-  split at hc
-  · cases hc; rfl
-  · cases hc
-  · exact ck_foldE_cellReplace hc
 
 theorem ck_triangles {st st' : St} {bigs : List (List Id)} (h : triangles st bigs = .ok st') :
     ck st'.mesh = ck st.mesh := by
   unfold triangles at h
-  simp only at h
   split at h
   · cases h
   · rename_i sv hf
     cases h
     exact foldE_inv (fun x : St × List (Id × Id) => ck x.1.mesh = ck st.mesh)
       (fun _ _ _ hb hP => (ck_triStep hb).trans hP) hf rfl
+
+/-! ### the inner-triangle loop: which exceptions it can raise -/
+
+/-- an error of `foldE` is an error of one of the steps -/
+theorem foldE_error {α β : Type} {f : β → α → Except Err β} (P : Err → Prop)
+    (hf : ∀ b a e, f b a = .error e → P e) {b : β} {l : List α} {e : Err}
+    (h : foldE f b l = .error e) : P e := by
+  induction l generalizing b with
+  | nil => simp only [foldE] at h; cases h
+  | cons a l ih =>
+    simp only [foldE] at h
+    split at h
+    · rename_i e' h1
+      cases h
+      exact hf _ _ _ h1
+    · exact ih h
+
+theorem getV_error {st : St} {k : Id} {e : Err} (h : st.getV k = .error e) : e = .keyError := by
+  unfold St.getV at h
+  split at h
+  · cases h; rfl
+  · split at h
+    · cases h
+    · cases h; rfl
+
+theorem St_delEdge_error {st : St} {k : Id} {e : Err} (h : st.delEdge k = .error e) : e = .keyError := by
+  unfold St.delEdge at h
+  split at h
+  · cases h; rfl
+  · split at h <;> cases h
+
+theorem cellReplace_error {m : Mesh} {c a b : Id} {e : Err} (h : cellReplace m c a b = .error e) :
+    e = .keyError ∨ e = .valueError := by
+  unfold cellReplace at h
+  split at h
+  · cases h; exact .inl rfl
+  · split at h
+    · cases h; exact .inr rfl
+    · split at h <;> cases h
+
+theorem triStep_error {bigs : List (List Id)} {sv : St × List (Id × Id)} {k : Id × Id} {e : Err}
+    (h : triStep bigs sv k = .error e) : e = .keyError ∨ e = .valueError := by
+  unfold triStep at h
+  simp only at h
+  split at h
+  · cases h
+  split at h
+  · split at h
+    · cases h
+    split at h
+    · cases h
+    split at h
+    · rename_i e' _ hg
+      cases h
+      exact .inl (getV_error hg)
+    split at h
+    · rename_i hc
+      cases h
+      split at hc
+      · cases hc
+      · rename_i hg
+        cases hc
+        exact .inl (getV_error hg)
+      · exact foldE_error (fun e => e = .keyError ∨ e = .valueError) (fun _ _ _ hb => cellReplace_error hb) hc
+    split at h
+    · rename_i hl
+      cases h
+      exact .inl (foldE_error (fun e => e = .keyError) (fun _ _ _ hb => St_delEdge_error hb) hl)
+    · cases h
+  · cases h; exact .inr rfl
+
+theorem triangles_error {st : St} {bigs : List (List Id)} {e : Err}
+    (h : triangles st bigs = .error e) : e = .keyError ∨ e = .valueError := by
+  unfold triangles at h
+  split at h
+  · rename_i e' hf
+    cases h
+    exact foldE_error (fun e => e = .keyError ∨ e = .valueError) (fun _ _ _ hb => triStep_error hb) hf
+  · cases h
+
+theorem sameEnds_ne_nil {bigs : List (List Id)} {k : Id × Id} (h : k ∈ dupKeys (firstLast bigs)) :
+    sameEnds bigs k ≠ [] := by
+  unfold dupKeys at h
+  have hk : k ∈ firstLast bigs := by
+    have := (List.mem_filter.mp h).1
+    exact List.mem_eraseDups.mp this
+  unfold firstLast at hk
+  rw [List.mem_append, List.mem_map, List.mem_map] at hk
+  have : ∃ e ∈ bigs, ((e.headD 0, e.getLastD 0) == k || (e.getLastD 0, e.headD 0) == k) = true := by
+    rcases hk with ⟨e, he, rfl⟩ | ⟨e, he, rfl⟩
+    · exact ⟨e, he, by simp⟩
+    · exact ⟨e, he, by simp⟩
+  obtain ⟨e, he, hp⟩ := this
+  intro hnil
+  have : e ∈ sameEnds bigs k := List.mem_filter.mpr ⟨he, hp⟩
+  rw [hnil] at this
+  cases this
+
+theorem firstLongest_isSome {l : List (List Id)} (h : l ≠ []) : (firstLongest l).isSome = true := by
+  cases l with
+  | nil => exact absurd rfl h
+  | cons a l => rfl
+
+theorem firstShortest_isSome {l : List (List Id)} (h : l ≠ []) : (firstShortest l).isSome = true := by
+  cases l with
+  | nil => exact absurd rfl h
+  | cons a l => rfl
 
 theorem ck_t3Vertex {art : List Id} {newId : Id} {st st' : St} {v : Id}
     (h : t3Vertex art newId st v = .ok st') : ck st'.mesh = ck st.mesh := by
